@@ -323,7 +323,7 @@ def finish(prop, tier, seed, mod, obs, results, t0, args):
                 # every assumption of the path.  That is a concrete, replayed counterexample - reported as such even
                 # though the symbolic run did not predict it (e.g. IEEE rounding, which the engine does not model).
                 c = {"label": "native-witness:" + str(o.get("label") or o.get("detail"))[:120], "model": w}
-                k = next((k for k in known if _matches(k, obn, c["label"], params)), None)
+                k = next((k for k in known if k.get("status") == "known" and _matches(k, obn, c["label"], params)), None)
                 validated += 1
                 if k is not None and k.get("status") == "known":
                     known_hits.append((k, f"{obn}:{c['label']}", c, params))
@@ -339,7 +339,7 @@ def finish(prop, tier, seed, mod, obs, results, t0, args):
         if str(c["label"]).startswith("unexpected:") and o.get("raised") and \
                 str(c["label"]).startswith("unexpected:" + o["raised"]):
             o = dict(o, ok=False)  # the native code raises the same unanticipated exception: reproduced
-        k = next((k for k in known if _matches(k, obn, c["label"], params)), None)
+        k = next((k for k in known if k.get("status") == "known" and _matches(k, obn, c["label"], params)), None)
         if o.get("ok") is False:
             validated += 1
             if k is not None and k.get("status") == "known":
